@@ -1,3 +1,178 @@
-From LiquidVerif Require Import Prelude Cond.
-Theorem C12_placeholder : True. Proof. exact I. Qed.
-Print Assumptions C12_placeholder.
+(* C12 — Conditions follow Liquid truthiness and operator rules.  Property theorems only. *)
+From Coq Require Import String.
+From LiquidVerif Require Import Prelude PyPrims Cond CondPrint Cond_Proofs Cond_Branch_Proofs.
+Local Open Scope string_scope. Local Open Scope list_scope.
+
+(* only false, nil and undefined are falsy — for every value of the universe *)
+Theorem C12_truthy : forall v, truthy v = false <-> (v = VBool false \/ v = VNil \/ v = VUndef).
+Proof. exact truthy_spec. Qed.
+Print Assumptions C12_truthy.
+
+(* ... so a bare variable in a condition is falsy exactly when bound to false / nil or not bound at all *)
+Theorem C12_var_falsy : forall env x,
+  eval_cond env (BVar x) = Ok false <->
+  (alookup x env = Some (VBool false) \/ alookup x env = Some VNil \/ alookup x env = Some VUndef \/ alookup x env = None).
+Proof. exact eval_var_falsy. Qed.
+Print Assumptions C12_var_falsy.
+
+(* and / or / not on truthiness, with short circuit: the right operand is not evaluated when the left decides *)
+Theorem C12_and : forall env a b x,
+  eval_cond env a = Ok x -> eval_cond env (BAnd a b) = if x then eval_cond env b else Ok false.
+Proof. exact eval_and. Qed.
+Print Assumptions C12_and.
+
+Theorem C12_or : forall env a b x,
+  eval_cond env a = Ok x -> eval_cond env (BOr a b) = if x then Ok true else eval_cond env b.
+Proof. exact eval_or. Qed.
+Print Assumptions C12_or.
+
+Theorem C12_not : forall env a x, eval_cond env a = Ok x -> eval_cond env (BNot a) = Ok (negb x).
+Proof. exact eval_not. Qed.
+Print Assumptions C12_not.
+
+(* grouping: for EVERY condition tree, printing it with parentheses only where the documented rules need them
+   (left operand of and/or that is itself and/or/not; compound operands of a comparison) and parsing the tokens
+   back gives the same tree: and/or have equal precedence and group from the right, comparisons bind tighter,
+   parentheses override *)
+Theorem C12_grouping : forall e, parse flags_on (print e) = Ok e.
+Proof. exact parse_print_roundtrip. Qed.
+Print Assumptions C12_grouping.
+
+(* the special case the property names: a flat chain  x1 op1 x2 op2 ... xn  of any length groups from the right *)
+Theorem C12_right_assoc : forall first rest,
+  atom first -> Forall (fun p => atom (snd p)) rest ->
+  parse flags_on (chain_toks first rest) = Ok (chain first rest).
+Proof. exact and_or_right_assoc. Qed.
+Print Assumptions C12_right_assoc.
+
+(* == : symmetric on the whole universe, and the documented table *)
+Theorem C12_eq_sym : forall a b, liq_eq a b = liq_eq b a.
+Proof. exact liq_eq_sym. Qed.
+Print Assumptions C12_eq_sym.
+
+Theorem C12_eq_table :
+  (forall b v, liq_eq (VBool b) v = match v with VBool b' => Bool.eqb b b' | _ => false end) /\
+  (forall v, liq_eq VNil v = match v with VNil | VUndef => true | _ => false end) /\
+  (forall v, liq_eq VEmpty v = match v with VEmpty | VStr [] | VList [] | VDict [] => true | _ => false end) /\
+  (forall s, liq_eq VBlank (VStr s) = forallb is_space s) /\
+  (forall z m e, liq_eq (VInt z) (VDec m e) = Z.eqb (z * pow10 e) m) /\
+  (forall x y, liq_eq (VInt x) (VInt y) = Z.eqb x y) /\
+  (forall s t, liq_eq (VStr s) (VStr t) = str_eqb s t) /\ (forall s z, liq_eq (VStr s) (VInt z) = false).
+Proof. exact liq_eq_table. Qed.
+Print Assumptions C12_eq_table.
+
+(* every comparison operator is built from == and < as documented; != negates == and never raises *)
+Theorem C12_operators : forall env op a b l r,
+  eval env a = Ok l -> eval env b = Ok r ->
+  eval_cond env (BCmp op a b) =
+  match op with
+  | OEq => Ok (liq_eq l r)
+  | ONe => Ok (negb (liq_eq l r))
+  | OLt => liq_lt l r
+  | OGt => liq_lt r l
+  | OLe => if liq_eq l r then Ok true else liq_lt l r
+  | OGe => if liq_eq l r then Ok true else liq_lt r l
+  | OContains => liq_contains l r
+  end.
+Proof. exact eval_cmp_spec. Qed.
+Print Assumptions C12_operators.
+
+(* ordering comparisons raise a Liquid type error exactly on incompatible operands, and never any other error *)
+Theorem C12_lt_type_error : forall l r, liq_lt l r = Err EType <-> orderable l r = false.
+Proof. exact lt_type_error_iff. Qed.
+Print Assumptions C12_lt_type_error.
+
+Theorem C12_lt_only_type_error : forall l r x, liq_lt l r = Err x -> x = EType.
+Proof. exact lt_never_foreign. Qed.
+Print Assumptions C12_lt_only_type_error.
+
+Theorem C12_lt_numbers : forall x y m e,
+  liq_lt (VInt x) (VInt y) = Ok (Z.ltb x y) /\
+  liq_lt (VInt x) (VDec m e) = Ok (Z.ltb (x * pow10 e) m) /\
+  liq_lt (VDec m e) (VInt x) = Ok (Z.ltb m (x * pow10 e)).
+Proof. exact lt_numbers. Qed.
+Print Assumptions C12_lt_numbers.
+
+(* contains *)
+Theorem C12_contains : forall l r,
+  (truthy l = false \/ truthy r = false -> liq_contains l r = Ok false) /\
+  (truthy r = true -> forall xs, l = VList xs -> liq_contains l r = Ok (existsb (fun x => member_eq x r) xs)) /\
+  (forall d k, l = VDict d -> r = VStr k -> liq_contains l r = Ok (existsb (fun p => str_eqb (fst p) k) d)) /\
+  (forall s p, l = VStr s -> r = VStr p -> liq_contains l r = Ok (substr p s)) /\
+  (truthy r = true -> forall a b, l = VRange a b -> liq_contains l r = Ok (in_range r a b)) /\
+  (truthy r = true -> match l with VInt _ | VDec _ _ | VBool true | VEmpty | VBlank => liq_contains l r = Err EType | _ => True end).
+Proof. exact contains_spec. Qed.
+Print Assumptions C12_contains.
+
+(* membership uses Python's ==, not Liquid's: the recorded known finding, as a witness in the model *)
+Theorem C12_contains_bool_int_refuted :
+  exists xs r, liq_contains (VList xs) r = Ok true /\ Forall (fun x => liq_eq x r = false) xs.
+Proof. exists [VInt 1], (VBool true). split; [reflexivity|repeat constructor]. Qed.
+Print Assumptions C12_contains_bool_int_refuted.
+
+(* if / elsif / else: the first truthy condition's block is rendered and later conditions are not evaluated;
+   else exactly when all are falsy; and conversely *)
+Theorem C12_if_chain_arm : forall env pre c post i has_else,
+  Forall (falsy_in env) pre -> eval_cond env c = Ok true ->
+  choose_if env (pre ++ c :: post) i has_else = Ok (Arm (i + length pre)).
+Proof. exact choose_if_arm. Qed.
+Print Assumptions C12_if_chain_arm.
+
+Theorem C12_if_chain_else : forall env conds i has_else,
+  Forall (falsy_in env) conds -> choose_if env conds i has_else = Ok (if has_else then Else else Nothing).
+Proof. exact choose_if_else. Qed.
+Print Assumptions C12_if_chain_else.
+
+Theorem C12_if_chain_sound : forall env conds i has_else k,
+  choose_if env conds i has_else = Ok (Arm k) ->
+  exists pre c post, conds = pre ++ c :: post /\ k = i + length pre /\
+                     Forall (falsy_in env) pre /\ eval_cond env c = Ok true.
+Proof. exact choose_if_sound. Qed.
+Print Assumptions C12_if_chain_sound.
+
+(* unless c == if not c, including its elsif / else arms *)
+Theorem C12_unless : forall env c0 elsifs has_else b,
+  eval_cond env c0 = Ok b ->
+  choose_unless env c0 elsifs has_else = choose_if env (BNot c0 :: elsifs) 0 has_else.
+Proof. exact unless_is_if_not. Qed.
+Print Assumptions C12_unless.
+
+(* case / when: each when block is rendered once per value equal (==) to the case value; an else block is
+   rendered exactly when no earlier when block matched *)
+Theorem C12_case_when : forall env v bs vbs d,
+  eval_blocks env bs = Ok vbs -> case_renders env v bs d = Ok (vrenders v vbs d).
+Proof. exact case_renders_spec. Qed.
+Print Assumptions C12_case_when.
+
+Theorem C12_case_when_count : forall v pre ws post d,
+  nth (length pre) (vrenders v (pre ++ VWhen ws :: post) d) 0 = count_eq v ws.
+Proof. exact case_when_count. Qed.
+Print Assumptions C12_case_when_count.
+
+Theorem C12_case_else : forall v pre post,
+  nth (length pre) (vrenders v (pre ++ VElse :: post) true) 0 =
+  if forallb (fun b => match b with VWhen ws => Nat.eqb (count_eq v ws) 0 | VElse => true end) pre then 1 else 0.
+Proof. exact case_else_iff. Qed.
+Print Assumptions C12_case_else.
+
+(* non-vacuity / reading aids *)
+Example C12_grouping_example :
+  parse flags_on [TLit (VBool true); TOr; TLit (VBool false); TAnd; TLit (VBool false)] =
+    Ok (BOr (BLit (VBool true)) (BAnd (BLit (VBool false)) (BLit (VBool false)))) /\
+  run_if {| cc_toks := [TLit (VBool true); TOr; TLit (VBool false); TAnd; TLit (VBool false)]; cc_env := [] |} = OBranch (tf true) /\
+  run_if {| cc_toks := [TLParen; TLit (VBool true); TOr; TLit (VBool false); TRParen; TAnd; TLit (VBool false)]; cc_env := [] |} = OBranch (tf false) /\
+  parse flags_on [TVar (lit "x"); TOp OEq; TLit (VInt 1); TAnd; TVar (lit "y"); TOp OLt; TLit (VInt 2)] =
+    Ok (BAnd (BCmp OEq (BVar (lit "x")) (BLit (VInt 1))) (BCmp OLt (BVar (lit "y")) (BLit (VInt 2)))).
+Proof. vm_compute. repeat split. Qed.
+
+Example C12_type_error_example :
+  run_if {| cc_toks := [TLit (VInt 1); TOp OLt; TLit (VStr (lit "a"))]; cc_env := [] |} = OErr EType /\
+  run_if {| cc_toks := [TLit (VInt 0)]; cc_env := [] |} = OBranch (tf true) /\
+  run_if {| cc_toks := [TVar (lit "nope")]; cc_env := [] |} = OBranch (tf false).
+Proof. vm_compute. repeat split. Qed.
+
+Example C12_case_example :
+  run_case {| cs_val := BLit (VInt 1);
+              cs_blocks := [CWhen [BLit (VInt 1); BLit (VDec 10 1)]; CElse; CWhen [BLit (VStr (lit "1"))]];
+              cs_env := [] |} = OBranch (lit "00").
+Proof. vm_compute. reflexivity. Qed.
